@@ -428,7 +428,7 @@ class Interp:
     def instantiate(self, cls, args, kwargs, node=None):
         mod = getattr(cls, '__module__', '') or ''
         con = self.contracts.get(cls.__qualname__ + '.__init__')
-        if mod.startswith('pytrs') and not issubclass(cls, BaseException):
+        if (mod.startswith('pytrs') or mod.startswith('props')) and not issubclass(cls, BaseException):
             if con is not None and (cls.__qualname__ + '.__init__') != self.verify_target and not self.spec_depth:
                 obj = Obj(cls)
                 if getattr(con, 'init_fields', None) is not None:
